@@ -33,6 +33,64 @@ from functools import reduce, cache, lru_cache
 from itertools import chain, starmap
 from pathlib import Path
 from typing import Any, Optional
+
+
+class Label:
+    # a user class that merely LOOKS like a str (same method names): type-conditioned checks must not treat it as one
+
+    def __init__(self, t: str = "ab") -> None:
+        self.t = t
+
+    def __repr__(self) -> str:
+        return f"Label({self.t!r})"
+
+    def upper(self) -> "Label":
+        return Label(self.t.upper())
+
+    def lower(self) -> "Label":
+        return Label(self.t.lower())
+
+    def strip(self, chars: Optional[str] = None) -> "Label":
+        return Label(self.t.strip(chars))
+
+    def lstrip(self, chars: Optional[str] = None) -> "Label":
+        return Label(self.t.lstrip(chars))
+
+    def rstrip(self, chars: Optional[str] = None) -> "Label":
+        return Label(self.t.rstrip(chars))
+
+    def isdigit(self) -> bool:
+        return self.t.isdigit()
+
+    def startswith(self, p: Any) -> bool:
+        return self.t.startswith(p)
+
+    def __len__(self) -> int:
+        return 7  # never empty by len, but falsy by __bool__
+
+    def __bool__(self) -> bool:
+        return False
+
+    def copy(self) -> "Label":
+        return Label(self.t + "!")
+
+    def __getitem__(self, i: Any) -> "Label":
+        return Label(self.t[i])
+
+
+class MyInt(int):
+    def __repr__(self) -> str:
+        return f"MyInt({int(self)})"
+
+
+class MyStr(str):
+    def __repr__(self) -> str:
+        return f"MyStr({str.__repr__(self)})"
+
+
+class MyList(list):  # type: ignore[type-arg]
+    def __repr__(self) -> str:
+        return f"MyList({list.__repr__(self)})"
 """
 
 NAN = float("nan")
@@ -54,6 +112,14 @@ POOLS: dict[str, list[Any]] = {
     "list[list[int]]": [[], [[1]], [[1, 2], [3]], [[], [1]]],
     "Optional[int]": [None, 0, 1],
     "list[float]": [[], [1.0], [1.5, NAN], [0.0, -0.0]],
+    # filled in lazily (the classes live in the generated module): see foreign_pools()
+}
+FOREIGN = {
+    "Label": ['Label("ab")', 'Label("")', 'Label(" 12 ")'],
+    "list[Label]": ['[Label("ab"), Label("3")]', "[]"],
+    "MyInt": ["MyInt(3)", "MyInt(0)"],
+    "MyStr": ['MyStr("ab")', 'MyStr("")'],
+    "MyList": ["MyList([2, 1])", "MyList([])"],
 }
 
 # (code, params, body[, options]) — params: [(name, annotation)]; body: function body lines; the names x y z f w v k are
@@ -222,6 +288,27 @@ IDIOMS: list[tuple[int, list[tuple[str, str]], str, dict[str, Any]]] = [
     (192, [("words", "list[str]")], "return sorted(words, key=len)[-1]", {}),
     (192, [("nums", "list[float]")], "return sorted(nums)[0]", {}),
     (192, [("nums", "list[bool]")], "return sorted(nums + [0, 1])[-1]", {}),
+    # operands of classes that only resemble the expected builtin: whatever refurb proposes here is executed too
+    (190, [("labels", "list[Label]")], "return list(map(lambda c0: c0.upper(), labels))", {}),
+    (190, [("labels", "list[Label]")], "return sorted(labels, key=lambda c0: c0.lower().t)", {}),
+    (190, [("labels", "list[Label]")], "return list(filter(lambda c0: c0.isdigit(), labels))", {}),
+    (123, [("n", "MyInt")], "return int(n)", {}),
+    (123, [("s", "MyStr")], "return str(s)", {}),
+    (123, [("nums", "MyList")], "return list(nums)", {}),
+    (145, [("nums", "MyList")], "return nums[:]", {}),
+    (145, [("lab", "Label")], "return lab[:]", {}),
+    (143, [("lab", "Label")], 'return lab or ""', {}),
+    (143, [("s", "MyStr")], 'return s or ""', {}),
+    (115, [("lab", "Label")], "if len(lab) == 0:\n    return 1\nreturn 2", {}),
+    (115, [("lab", "Label")], "if len(lab):\n    return 1\nreturn 2", {}),
+    (159, [("lab", "Label")], "return lab.lstrip().rstrip()", {}),
+    (102, [("lab", "Label")], 'return lab.startswith("a") or lab.startswith("b")', {}),
+    (149, [("n", "MyInt")], "return n == True", {}),
+    (186, [("nums", "MyList")], "nums = sorted(nums)\nreturn nums", {}),
+    (183, [("lab", "Label")], 'return f"{lab}"', {}),
+    (136, [("n", "MyInt"), ("m", "MyInt")], "return n if n > m else m", {}),
+    (110, [("lab", "Label"), ("s", "str")], "return lab if lab else s", {}),
+    (114, [("lab", "Label")], "return not not lab", {}),
 ]
 
 # Diagnostics whose own documentation says they change behaviour / are heuristics: (code, docstring sentence that must still be there,
@@ -319,6 +406,9 @@ def run(ctx) -> None:
         if sentence and code in rows and sentence not in " ".join(rows[code]["doc"].split()):
             res.disagreements.append({"where": "caveat-table", "reason": f"FURB{code}'s docstring no longer contains the caveat {sentence!r}: it re-enters the claim"})
     src, cases = build_module()
+    ns: dict[str, Any] = {"__name__": "case_module"}
+    exec(compile(src, "<cases>", "exec"), ns)  # noqa: S102  (only to build the pools of user-class values)
+    foreign = {k: [eval(e, ns) for e in v] for k, v in FOREIGN.items()}  # noqa: S307
     with core.scratch("rv-c01-") as d:
         (d / "cases.py").write_text(src)
         (d / "pyproject.toml").write_text("")
@@ -336,7 +426,7 @@ def run(ctx) -> None:
         if not own:
             res.notes.append(f"idiom {case['i']} (FURB{case['code']}: {case['body'].splitlines()[0]}) is not diagnosed by its check")
             res.bump("idiom_not_diagnosed")
-        pools = [POOLS[a] for _, a in case["params"]]
+        pools = [POOLS[a] if a in POOLS else foreign[a] for _, a in case["params"]]
         args_list = product_sample(rng, pools, cap) if pools else [()]
         for dg in mine:
             code = dg["code"]
